@@ -37,6 +37,7 @@
    transformed B, X and the rank of _vnacommon_qrd / _vnacommon_qrsolve against the extracted model.
 """
 import math
+import re
 import os
 from fractions import Fraction
 
@@ -407,7 +408,8 @@ def run(ctx):
     # ------------------------------------------------------------------ 2. proofs
     vfiles = ["Lin/LuGenA.v", "Lin/LuGenB.v", "Lin/LuGenC.v", "Lin/LuGenD.v", "Lin/LuGen.v", "Lin/LuPivot.v",
               "Lin/LuDet3.v", "Lin/LuProofs.v", "Lin/LuNonsing.v", "Lin/LuNonsingQI.v", "Lin/LsProofs.v",
-              "Lin/LsLuProofs.v", "Lin/QrAlg.v", "Lin/QrProofs.v", "Lin/QrTheorems.v", "Lin/QrQIProofs.v",
+              "Lin/LsLuProofs.v", "Lin/LuDetModel.v", "Lin/LuDetAlg.v", "Lin/LuDetProofs.v", "Lin/LuRowOrderProofs.v",
+              "Lin/DivideProofs.v", "Lin/LuDetExamples.v", "Lin/QrAlg.v", "Lin/QrProofs.v", "Lin/QrTheorems.v", "Lin/QrQIProofs.v",
               "Properties_C19.v"]
     vfiles = [v for v in vfiles if os.path.exists(os.path.join(vplib.COQDIR, v))]
     ok, res = ctx.coq_obligations(["Lin/LsSpec.v", "Lin/LuPartial.v", "Lin/LsLu.v", "Lin/LuQI2.v", "Lin/QrModel.v", "Lin/QrQI.v"] + vfiles)
@@ -745,6 +747,9 @@ def run(ctx):
 
     # ------------------------------------------------------------------ 3c. exactly zero pivots
     zero_pivot_check(ctx, exe, run_both, violation, quick, model_variant)
+
+    # ------------------------------------------------------------------ 3d. determinant = Laplace determinant
+    det_laplace_check(ctx, exe, violation, quick)
 
     # ------------------------------------------------------------------ 4. least squares
     ls_check(ctx, drv, exe, run_both, violation, quick)
@@ -1105,6 +1110,124 @@ def zero_pivot_check(ctx, exe, run_both, violation, quick, variant):
                   {"n": n, "first_dependent_column": j if j < n else None,
                    "A": [[[fs(a), fs(b)] for (a, b) in row] for row in A], "model": "LuPartial.lu_c (drv_lu2 luc)",
                    "model_stop": mc["stop"], "observed": what, "harness": "harness/lu_harness.c lua / mldivide / add_an"})
+
+
+def exact_det(A):
+    """determinant of a square matrix of Fraction pairs by fraction Gaussian elimination (independent of
+    the Coq development and of the LU model)."""
+    n = len(A)
+    M = [list(r) for r in A]
+    det = (Fraction(1), Fraction(0))
+    Z = (Fraction(0), Fraction(0))
+    for c in range(n):
+        p = next((r for r in range(c, n) if M[r][c] != Z), None)
+        if p is None:
+            return Z
+        if p != c:
+            M[p], M[c] = M[c], M[p]
+            det = (-det[0], -det[1])
+        det = cmul(det, M[c][c])
+        for r in range(c + 1, n):
+            if M[r][c] != Z:
+                f = cdivq(M[r][c], M[c][c])
+                M[r] = [csub(M[r][k], cmul(f, M[c][k])) for k in range(n)]
+    return det
+
+
+def _coq_qi(v):
+    return "(mkqi (%d) %d (%d) %d)" % (v[0].numerator, v[0].denominator, v[1].numerator, v[1].denominator)
+
+
+def det_laplace_check(ctx, exe, violation, quick):
+    """Tie of the determinant theorems (LuDetProofs.lu_det_all_n, lu_c_det_is_det), n = 1..8:
+    (a) LuDetModel.det_lap (Laplace expansion, the specification) and the determinant accumulator of the
+        LU model, both evaluated by Coq at Q[i], must equal the exact rational determinant computed here by
+        fraction elimination;
+    (b) the value _vnacommon_lu returns on the same matrix: exactly singular with the first dependent column
+        last => exactly 0; dependent column earlier => NaN; nonsingular => the exact determinant within
+        1e-9 relative (the eliminations of these P L U inputs are exact or nearly so), and BITWISE equal
+        when every pivot the model meets is +-2^e or +-i 2^e (then every operation is exact in binary64)."""
+    rng = ctx.rng
+    reps = 1 if quick else 3
+    cases = []
+    for n in range(1, 9):
+        for r in range(reps):
+            cases.append((n, n, gen_exact_lu(rng, n, n)))
+        if n >= 2:
+            j = rng.randint(0, n - 1)
+            cases.append((n, j, gen_exact_lu(rng, n, j)))
+    # small random integer matrices as well (no structure)
+    for n in (2, 3, 4, 5):
+        cases.append((n, None, [[(Fraction(rng.randint(-4, 4)), Fraction(rng.randint(-2, 2))) for _ in range(n)]
+                                for _ in range(n)]))
+    body = ["Require Import List ZArith QArith Qcanon.", "Import ListNotations.",
+            "Require Import LV.Base.CField LV.Base.QcI LV.Lin.MatL LV.Lin.LuModel LV.Lin.LuQI2 LV.Lin.LuDetModel."]
+    exp = []
+    for k, (n, j, A) in enumerate(cases):
+        d = exact_det(A)
+        exp.append(d)
+        rows = "[" + "; ".join("[" + "; ".join(_coq_qi(v) for v in row) + "]" for row in A) + "]"
+        body.append("Definition a%d : mat QIF := %s." % (k, rows))
+        body.append("Eval vm_compute in (qi_eqb (det_lap QIF %d a%d) %s, qi_eqb (lu_d QIF Qc (q2_lu_recip a%d %d)) %s)."
+                    % (n, k, _coq_qi(d), k, n, _coq_qi(d)))
+    rc, out, err = ctx.coq_eval("c19_det_cases", "\n".join(body) + "\n", timeout=600)
+    res = re.findall(r"=\s*\(\s*(true|false)\s*,\s*(true|false)\s*\)", out)
+    ok_eval = rc == 0 and len(res) == len(cases)
+    ctx.obligation("tie:det_lap evaluated by Coq (%d matrices, n = 1..8)" % len(cases), ok_eval,
+                   "" if ok_eval else (err or out)[-300:])
+    bad_spec, bad_model = [], []
+    if ok_eval:
+        for k, (a, b) in enumerate(res):
+            ctx.count(("det_lap", cases[k][0], cases[k][1]))
+            if a != "true":
+                bad_spec.append(k)
+            if b != "true":
+                bad_model.append(k)
+    ctx.obligation("tie:Laplace determinant (Coq det_lap) = exact rational determinant", ok_eval and not bad_spec,
+                   "cases %s" % bad_spec[:3])
+    ctx.obligation("tie:determinant of the LU model = exact rational determinant (theorem c19_lu_det_QI)",
+                   ok_eval and not bad_model, "cases %s" % bad_model[:3])
+    # the C code
+    clines = ["lu %d %s" % (n, mat_str(A, hx)) for (n, j, A) in cases]
+    rcc, cout, cerr = vplib.sh([exe], input="\n".join(clines) + "\n", timeout=300, env=ctx.run_env())
+    cl = cout.strip().split("\n") if rcc == 0 else []
+    okc = rcc == 0 and len(cl) == len(cases)
+    ctx.obligation("tie:lu_harness ran on the determinant cases", okc, cerr[-200:])
+    bad = []
+    nexact = 0
+    if okc:
+        for k, ((n, j, A), line) in enumerate(zip(cases, cl)):
+            dc = parse_c_line(line).get("det")
+            d = exp[k]
+            ctx.traces_validated += 1
+            if d == (0, 0):
+                if j is not None and j < n - 1:
+                    good = dc is not None and (dc[0] != dc[0] or dc[1] != dc[1])      # NaN
+                elif j is not None:
+                    good = dc == (0.0, 0.0)
+                else:
+                    good = dc is not None and (dc == (0.0, 0.0) or not finite(dc) or cabsf(dc) < 1e-9)
+            else:
+                df = (float(d[0]), float(d[1]))
+                good = dc is not None and finite(dc) and cabsf((dc[0] - df[0], dc[1] - df[1])) <= 1e-9 * cabsf(df)
+                if good and j == n and (Fraction(dc[0]), Fraction(dc[1])) == d:
+                    nexact += 1
+            if not good:
+                bad.append((k, n, j, dc, d))
+    ctx.obligation("tie:determinant returned by _vnacommon_lu = exact determinant (0 / NaN / 1e-9 relative; %d bitwise exact)"
+                   % nexact, okc and not bad, "; ".join("case %d n=%d: C %s exact %s" % (b[0], b[1], b[3], b[4]) for b in bad[:3]))
+    for k, n, j, dc, d in bad[:1]:
+        violation({"kind": "determinant", "function": "_vnacommon_lu"},
+                  "_vnacommon_lu returns determinant %s for a %dx%d matrix whose exact determinant is %s"
+                  % (dc, n, n, (str(d[0]), str(d[1]))),
+                  {"n": n, "A": [[(str(a), str(b)) for (a, b) in row] for row in cases[k][2]], "first_dependent_column": j,
+                   "c_det": str(dc), "exact_det": [str(d[0]), str(d[1])]})
+    if ok_eval and (bad_spec or bad_model):
+        k = (bad_spec or bad_model)[0]
+        violation({"kind": "determinant-model", "function": "det_lap"},
+                  "Coq determinant (Laplace / LU model) differs from the exact determinant on a %dx%d matrix" % (cases[k][0], cases[k][0]),
+                  {"n": cases[k][0], "A": [[(str(a), str(b)) for (a, b) in row] for row in cases[k][2]],
+                   "exact_det": [str(exp[k][0]), str(exp[k][1])]})
 
 
 def parse_luc_line(line):
